@@ -71,7 +71,7 @@ def match_groups(exp, obs, path="", strict_guards=False):
             while i < n_obs and obs[i].kind == "guard" and obs[i].cid in allowed \
                     and (obs[i].tidx == g.tidx or g.tidx is None or obs[i].tidx is None):
                 o = obs[i]
-                if o.cid in seen and o.cid in g.required:
+                if o.cid in seen and (o.cid in g.required or not getattr(g, "dups_ok", False)):
                     return f"{path}guard {o.brief()} read twice for one candidate"
                 seen[o.cid] = o.value
                 i += 1
